@@ -351,6 +351,185 @@ def check_dimensions(ctx, db):
     ctx.check('modulo((p0 + 3.14159' in t and 'fmod' not in t, 'R-IDIOM', 'elliptical_angle_transform/uses-floored-modulo', e.loc(), 'the whole-turn offset of the elliptical angle uses the floored modulo')
 
 
+def fillet_model(db, pts, radii, tol):
+    """Polygon::fillet interpreted (sa/minieval, IEEE doubles; the libm functions answered by Python's math) on one polygon.
+    Returns the output vertices."""
+    import math
+    from .. import minieval as M
+    f = db.fn('gdstk::Polygon::fillet')
+
+    def arr(lst):
+        return M.Obj(items=M.Ptr(lst, 0) if lst else 0, count=len(lst), capacity=len(lst))
+    this = M.Obj(point_array=arr([M.Obj(x=float(x), y=float(y)) for x, y in pts]))
+    ref = [None]
+
+    def extra(callee, args, node):
+        c = callee or ''
+        short = c.split('::')[-1]
+        if short in ('acos', 'tan', 'cos', 'sin', 'sqrt', 'fabs', 'atan2') and len(c.split('::')) <= 2:
+            try:
+                return (getattr(math, short)(*[float(a) for a in args]),)
+            except ValueError:
+                return (float('nan'),)
+        if short == '__assert_fail':
+            raise M.OutOfBounds('assertion fails at %s' % node.loc())
+        return None
+    mi = M.Mini(db, hook=M.array_hook(ref, extra), budget=600000, c_ints=True)
+    mi.obj_store = True
+    mi.ieee = True
+    ref[0] = mi
+    env = {'this': this, f.params[0]['n']: arr([float(r) for r in radii]), f.params[1]['n']: float(tol)}
+    try:
+        mi.run(f.body, env)
+    except M.Return:
+        pass
+    pa = this['point_array']
+    return [(p['x'], p['y']) for p in (pa['items'].arr[pa['items'].i:pa['items'].i + pa['count']] if pa['count'] else [])]
+
+
+def check_fillet_model(ctx, db, tier='quick'):
+    """R-MODEL.fillet: Polygon::fillet interpreted on small polygons (square, L shape with a reflex corner, triangle; both orientations;
+    rotated so that the arc angles fall on either side of the +-pi cut of atan2), with one radius, a radius per vertex and a radius too
+    large for the edges. The exact filleted outline is computed independently: at a corner of turning angle theta the arc of radius r
+    (reduced so that its tangent length fits half of either adjacent edge less the tolerance) is tangent to both edges. Required of the
+    vertices the source produces for every corner, in order: the first lies on the incoming edge at the tangent point, the last on the
+    outgoing edge, all are finite and at distance r from the arc's centre, they advance monotonically the SHORT way round (sweep =
+    theta <= pi), and no chord strays from the arc by more than twice the tolerance."""
+    import math
+    f = db.fn('gdstk::Polygon::fillet')
+    ctx.touch(f)
+    shapes = [('square', [(0, 0), (4, 0), (4, 4), (0, 4)]), ('L', [(0, 0), (6, 0), (6, 3), (3, 3), (3, 6), (0, 6)]), ('triangle', [(0, 0), (7, 1), (2, 6)])]
+    rots = (0.0, 0.4, 1.3, 2.6, -2.0) if tier == 'thorough' else (0.0, 1.3, -2.0)
+    n = 0
+    for name, base in shapes:
+        for orient in (1, -1):
+            for rot in rots:
+                for radii, tol in (([0.5], 0.01), ([0.3, 0.6, 0.45], 0.002), ([5.0], 0.01)):
+                    if tier != 'thorough' and (len(radii) == 3) != (rot == 1.3):
+                        continue
+                    ca, sa_ = math.cos(rot), math.sin(rot)
+                    pts = [(x * ca - y * sa_, x * sa_ + y * ca) for x, y in (base if orient == 1 else base[::-1])]
+                    n += 1
+                    key = 'fillet/%s,%s,rot=%g,radii=%s,tol=%g' % (name, 'ccw' if orient == 1 else 'cw', rot, radii, tol)
+                    why = None
+                    try:
+                        out = fillet_model(db, pts, radii, tol)
+                    except Exception as ex:
+                        from ..minieval import OutOfBounds
+                        if not isinstance(ex, OutOfBounds):
+                            raise
+                        out, why = [], str(ex)
+                    if why is None and any(not (math.isfinite(x) and math.isfinite(y)) for x, y in out):
+                        why = 'a vertex is not finite'
+                    pos = 0
+                    N = len(pts)
+                    for j in range(N if why is None else 0):
+                        p0, p1, p2 = pts[(j - 1) % N], pts[j], pts[(j + 1) % N]
+                        v0 = (p1[0] - p0[0], p1[1] - p0[1])
+                        v1 = (p2[0] - p1[0], p2[1] - p1[1])
+                        l0, l1 = math.hypot(*v0), math.hypot(*v1)
+                        v0, v1 = (v0[0] / l0, v0[1] / l0), (v1[0] / l1, v1[1] / l1)
+                        theta = math.acos(max(-1.0, min(1.0, v0[0] * v1[0] + v0[1] * v1[1])))
+                        r = radii[j % len(radii)]
+                        t = min(r * math.tan(theta / 2), 0.5 * (l0 - tol), 0.5 * (l1 - tol))
+                        r = t / math.tan(theta / 2)
+                        T0 = (p1[0] - v0[0] * t, p1[1] - v0[1] * t)
+                        T1 = (p1[0] + v1[0] * t, p1[1] + v1[1] * t)
+                        left = v0[0] * v1[1] - v0[1] * v1[0] > 0
+                        nrm = (-v0[1], v0[0]) if left else (v0[1], -v0[0])
+                        C = (T0[0] + nrm[0] * r, T0[1] + nrm[1] * r)
+                        grp = []
+                        while pos < len(out) and abs(math.hypot(out[pos][0] - C[0], out[pos][1] - C[1]) - r) < 1e-7 and (len(grp) < 1 or math.hypot(out[pos][0] - T0[0], out[pos][1] - T0[1]) > 1e-9):
+                            grp.append(out[pos])
+                            pos += 1
+                        if len(grp) < 2:
+                            why = 'corner %d (%.3f, %.3f): %d vertices on the arc of radius %.4g about (%.3f, %.3f); next vertex %s' % (j, p1[0], p1[1], len(grp), r, C[0], C[1], out[pos] if pos < len(out) else None)
+                            break
+                        if math.hypot(grp[0][0] - T0[0], grp[0][1] - T0[1]) > 1e-7 or math.hypot(grp[-1][0] - T1[0], grp[-1][1] - T1[1]) > 1e-7:
+                            why = 'corner %d: the arc runs from (%.4f, %.4f) to (%.4f, %.4f), the tangent points are (%.4f, %.4f) and (%.4f, %.4f)' % ((j,) + grp[0] + grp[-1] + T0 + T1)
+                            break
+                        angs = [math.atan2(q[1] - C[1], q[0] - C[0]) for q in grp]
+                        steps = [((b - a + math.pi) % (2 * math.pi)) - math.pi for a, b in zip(angs, angs[1:])]
+                        sweep = sum(steps)
+                        if any((s_ > 1e-9) != left and abs(s_) > 1e-9 for s_ in steps) or abs(abs(sweep) - theta) > 1e-6:
+                            why = 'corner %d: the arc sweeps %.4f rad in steps %s; the corner turns by %.4f rad %s' % (j, sweep, ['%.3f' % s_ for s_ in steps[:4]], theta, 'left' if left else 'right')
+                            break
+                        sag = max(r * (1 - math.cos(abs(s_) / 2)) for s_ in steps)
+                        if sag > 2 * tol:
+                            why = 'corner %d: a chord strays %.4g from the arc, tolerance %.4g' % (j, sag, tol)
+                            break
+                    if why is None and pos != len(out):
+                        why = '%d vertices beyond the last corner arc' % (len(out) - pos)
+                    ctx.check(why is None, 'R-MODEL.fillet', key, f.loc(), 'every corner arc is tangent to both edges, of the (clamped) radius, the short way round and within tolerance', why)
+    ctx.explored['valuations'] += n
+    ctx.require('R-MODEL.fillet polygons interpreted', n, 18 if tier != 'thorough' else 60)
+
+
+def check_builders_model(ctx, db):
+    """Curve::cubic, cubic_smooth, quadratic and quadratic_smooth (list overloads) interpreted (sa/minieval) on a curve ending at
+    (5, 7) with remembered control point (4, 9) and a list of TWO sections, relative and absolute. append_cubic / append_quad are
+    answered by the harness, which records the control points handed over and moves the curve's end point. Required: the documented
+    control points - every coordinate of one relative call offset by the end point the curve had when the call was made; smooth
+    sections starting with the reflection of the previous control point - each section starting where the previous one ended, and the
+    control point remembered for the next smooth section. Two sections show what one cannot: which reference the second uses."""
+    from .. import minieval as M
+    E0, K0 = (5, 7), (4, 9)
+    pts_all = [(1, 2), (3, -1), (6, 4), (-2, 5), (7, 7), (2, -3)]
+    n = 0
+    for qn, callee, per, smooth in (('gdstk::Curve::cubic', 'append_cubic', 3, False), ('gdstk::Curve::cubic_smooth', 'append_cubic', 2, True),
+                                    ('gdstk::Curve::quadratic', 'append_quad', 2, False), ('gdstk::Curve::quadratic_smooth', 'append_quad', 1, True)):
+        fs = [g for g in db.fn(qn, all=True) if 'Array' in g.sig]
+        if len(fs) != 1:
+            raise AnalysisBroken('%s(Array) overload not found' % qn)
+        f = fs[0]
+        ctx.touch(f)
+        P = pts_all[:2 * per]
+        for relative in (1, 0):
+            n += 1
+            end = [M.Obj(x=E0[0], y=E0[1])]
+            this = M.Obj(point_array=M.Obj(items=M.Ptr(end, 0), count=1, capacity=1), last_ctrl=M.Obj(x=K0[0], y=K0[1]))
+            calls = []
+
+            def hook(callee_, args, node):
+                short = (callee_ or '').split('::')[-1]
+                if short in ('append_cubic', 'append_quad'):
+                    calls.append(tuple((a['x'], a['y']) for a in args))
+                    lst = this['point_array']['items'].arr
+                    lst.append(M.Obj(args[-1]))
+                    this['point_array']['count'] = len(lst)
+                    return (None,)
+                return None
+            mi = M.Mini(db, hook=hook, budget=20000)
+            mi.obj_store = True
+            plist = [M.Obj(x=a, y=b) for a, b in P]
+            env = {'this': this, f.params[0]['n']: M.Obj(items=M.Ptr(plist, 0), count=len(plist), capacity=len(plist)), f.params[1]['n']: relative}
+            try:
+                mi.run(f.body, env)
+            except M.Return:
+                pass
+            ref = E0 if relative else (0, 0)
+            A = lambda p_: (ref[0] + p_[0], ref[1] + p_[1])
+            want = []
+            start, ctrl = E0, K0
+            for k in range(2):
+                ops = [A(p_) for p_ in P[per * k:per * (k + 1)]]
+                if smooth:
+                    refl = (2 * start[0] - ctrl[0], 2 * start[1] - ctrl[1])
+                    want.append((start, refl) + tuple(ops))
+                    ctrl = ops[0] if per == 2 else refl
+                else:
+                    want.append((start,) + tuple(ops))
+                    ctrl = ops[-2]
+                start = ops[-1]
+            got_ctrl = (this['last_ctrl']['x'], this['last_ctrl']['y'])
+            ok = calls == want and got_ctrl == ctrl
+            ctx.check(ok, 'R-ALGEBRA', '%s/two-sections|%s' % (qn.replace('gdstk::', ''), 'relative' if relative else 'absolute'), f.loc(),
+                      'two sections in one %s call get the documented control points, chained end to start, and the control point for a following smooth section is remembered' % ('relative' if relative else 'absolute'),
+                      'from end point %s, remembered control point %s and the list %s (%s): %s receives %s and last_ctrl ends as %s; documented: %s and %s' % (E0, K0, P, 'relative' if relative else 'absolute', callee, calls, got_ctrl, want, ctrl))
+    ctx.explored['valuations'] += n
+    ctx.require('R-ALGEBRA builder cases interpreted', n, 8)
+
+
 def check_section_algebra(ctx, db):
     """One generic iteration of each polynomial section builder, folded into vectors over symbolic atoms: the control
     points handed to append_cubic / append_quad and the state carried to the next iteration are exactly the
@@ -419,7 +598,11 @@ def check_section_algebra(ctx, db):
         ctx.touch(f)
         rel_if = next((i for i in f.body.c if i is not None and i.k == 'IfStmt' and norm(i.child('cond').text()) == 'relative'), None)
         if rel_if is None:
-            raise AnalysisBroken('%s: relative/absolute split not found' % qn)
+            # written without a relative/absolute split (one loop with a conditional reference): nothing is claimed symbolically;
+            # the control points are decided by interpretation (check_builders_model)
+            ctx.ok('R-ALGEBRA', '%s/symbolic' % qn.replace('gdstk::', ''), f.loc(), 'no relative/absolute split to execute symbolically: decided by the two-section interpretation')
+            n += 2
+            continue
         for relative, br in ((True, rel_if.child('then')), (False, rel_if.child('else'))):
             alg = CA(db, None)
             L, K, R = alg.vec(S.atom('L.x'), S.atom('L.y')), alg.vec(S.atom('K.x'), S.atom('K.y')), alg.vec(S.atom('R.x'), S.atom('R.y'))
@@ -845,6 +1028,8 @@ def run(ctx):
     ctx.attempt(check_clamps, ctx, db)
     ctx.attempt(check_samplers, ctx, db)
     ctx.attempt(check_dimensions, ctx, db)
+    ctx.attempt(check_builders_model, ctx, db)
+    ctx.attempt(check_fillet_model, ctx, db, ctx.tier)
     ctx.attempt(check_section_algebra, ctx, db)
     ctx.attempt(check_inverse_trig_domains, ctx, db)
     fns = [f for f in db.functions if f.body is not None and f.relfile() in ('src/polygon.cpp', 'src/curve.cpp')]
